@@ -55,7 +55,7 @@ def floors(tier):
     scale = 1 if tier == 'quick' else 20
     return {'evaluations': 500 * scale, 'three_way_compared': 400 * scale, 'engine_sqlite': 200 * scale,
             'engine_duckdb': 200 * scale, 'join_cases': 60 * scale, 'set_cases': 10 * scale, 'grouped_cases': 40 * scale,
-            'negation_cases': 10 * scale, 'reader_reads_checked': 12, 'nested_limit_cases': 20 * scale}
+            'negation_cases': 10 * scale, 'reader_reads_checked': 12, 'nested_limit_cases': 20 * scale, 'nested_set_cases': 15}
 
 
 # ------------------------------------------------------------------------------------------------ parser level
@@ -128,7 +128,7 @@ def features_of(ast):
     return feats
 
 
-def supported(ast, env):
+def supported(ast, env, nested_sets=False):
     """Reason why the statement is outside the comparable fragment (None = comparable)."""
     from vlib import dsleval, dslgen
 
@@ -162,7 +162,7 @@ def supported(ast, env):
             return 'grouping by an expression holding a literal (bind parameters make it engine specific)'
         if node[0] == 'set' and any(side[0] == 'query' and (side[6] or side[7] is not None) for side in (node[1], node[2])):
             return 'ordered/limited set operand (not accepted by sqlite in a compound select)'
-        if node[0] == 'set' and (node[1][0] == 'set' or node[2][0] == 'set'):
+        if not nested_sets and node[0] == 'set' and (node[1][0] == 'set' or node[2][0] == 'set'):
             return 'nested set operation (sqlite cannot parse the parenthesised compound SQLAlchemy emits)'
         if node[0] == 'query' and node[4]:
             grouped = {dslgen.signature(g) for g in node[4]}
@@ -268,10 +268,14 @@ def check_statement(ctx, engines, raw, data, datakey):
     if dslgen.violations(ast) or dslgen.unspecified(ast) is not None:
         ctx.count('skipped_not_conforming_after_simplify')
         return
-    why = supported(ast, env)
+    why = supported(ast, env, nested_sets=True)
     if why:
         ctx.count('skipped_' + why.split(' ')[0])
         return
+    only = None
+    if supported(ast, env):  # nothing but a nested set operation: sqlite cannot parse the parenthesised compound - duckdb can
+        only = {'duckdb'}
+        ctx.count('nested_set_cases')
     feats = features_of(ast)
     sig = dslgen.signature(ast)
     witness = {'ast': ast, 'data': data}
@@ -306,6 +310,8 @@ def check_statement(ctx, engines, raw, data, datakey):
         witness['rename'] = rename
     engines.load(data, datakey)
     for name, conn in engines.conns.items():
+        if only is not None and name not in only:
+            continue
         ctx.count(f'engine_{name}')
         if len(feats) >= 2 or any(f.startswith(('join-', 'set-', 'reference-')) for f in feats):
             ctx.shape((sig, name))
@@ -684,7 +690,28 @@ def _directed():
         g.query(a, select=(g.column('A', 'x'), g.column('A', 'y')), where=g.cmp('>', g.column('A', 'y'), g.column('A', 'x'))),
         g.query(a, select=(g.alias(g.cmp('<', g.column('A', 'x'), g.column('A', 'y')), 'lt'),
                            g.alias(g.cmp('<', g.column('A', 'y'), g.column('A', 'x')), 'gt'))),
-    ] + referenced_joins()
+        # one named reference read by both operands of a set operation
+        ('set', g.query(g.reference(a, 'rs'), select=(g.column('rs', 'x'),)),
+         g.query(g.reference(a, 'rs'), select=(g.column('rs', 'x'),), where=g.cmp('>', g.column('rs', 'y'), g.lit(0))), 'union'),
+        ('set', g.query(g.reference(a, 'rt'), select=(g.column('rt', 'y'),), where=g.cmp('>', g.column('rt', 'x'), g.lit(1))),
+         g.query(g.reference(a, 'rt'), select=(g.column('rt', 'x'),)), 'difference'),
+    ] + referenced_joins() + nested_sets()
+
+
+def nested_sets():
+    """Every pair of set kinds in both nestings, x OP1 (y OP2 z) and (x OP1 y) OP2 z, over overlapping single-column selects."""
+    from vlib import dslgen as g
+
+    x = g.query(g.table('A'), select=(g.column('A', 'x'),))
+    y = g.query(g.table('B'), select=(g.column('B', 'x'),))
+    z = g.query(g.table('A2'), select=(g.column('A2', 'x'),))
+    kinds = ('union', 'intersection', 'difference')
+    out = []
+    for outer in kinds:
+        for inner in kinds:
+            out.append(('set', x, ('set', y, z, inner), outer))
+            out.append(('set', ('set', x, y, inner), z, outer))
+    return out
 
 
 def referenced_joins():
